@@ -15,6 +15,7 @@ import (
 	"os"
 	"strings"
 	"testing"
+	"time"
 )
 
 type replay struct {
@@ -143,6 +144,18 @@ func Symbolic() bool { return false }
 // NondetMapOrder: under the engine every range over a small Go map forks over all iteration orders while on.
 // Natively Go randomises map iteration itself; RunReplay repeats such a replay (field "repeat") until it fails.
 func NondetMapOrder(on bool) {}
+
+// ExactBigText: under the engine, decimal text of symbolic big integers is modelled digit by digit while on
+// (otherwise an opaque placeholder, good enough for log and error messages).
+func ExactBigText(on bool) {}
+
+// Yield: under the engine, every other goroutine runs until it blocks or finishes (deterministic cooperative
+// scheduler); natively a short sleep, long enough for the other goroutines of a harness to get there.
+func Yield() { time.Sleep(20 * time.Millisecond) }
+
+// RaceDetect: under the engine, switches happens-before data-race detection on (violations are reported under the
+// given assertion id) or off (""); natively the replay binary of a package with *_Race harnesses is built with -race.
+func RaceDetect(assertID string) {}
 
 // SetEnv / GetEnv: environment answers chosen by the harness (e.g. whether the node's tx index contains the tx).
 var env = map[string]bool{}
